@@ -191,7 +191,7 @@ pub fn parse_ev(s: &str) -> REv {
     match &s[..1] { "D" => REv::Data(unhex(&s[1..])), "E" => REv::Err(s[1..].parse().unwrap()), "T" => REv::Elapsed, "N" => REv::Pend, _ => REv::Eof }
 }
 
-fn err_token(e: &Error) -> (String, bool) {
+pub fn err_token(e: &Error) -> (String, bool) {
     match e {
         Error::Disconnected => ("DC".into(), true),
         Error::IncompatibleVersion(v) => (format!("BV{v}"), false),
